@@ -34,15 +34,15 @@ type LoadConfig struct {
 
 // Request is one unit of work for a worker.
 type Request struct {
-	ID      int              `json:"id"`
-	Pkg     string           `json:"pkg"`     // package path of the harness
-	Func    string           `json:"func"`    // harness function name
-	Item    WorkItem         `json:"item"`
-	Params  map[string]int64 `json:"params"`
-	Budget  int64            `json:"budget"`
-	TimeoutMs int            `json:"timeout_ms"`
-	CrossCheck bool          `json:"cross_check"`
-	Trace   bool             `json:"trace"`
+	ID         int              `json:"id"`
+	Pkg        string           `json:"pkg"`  // package path of the harness
+	Func       string           `json:"func"` // harness function name
+	Item       WorkItem         `json:"item"`
+	Params     map[string]int64 `json:"params"`
+	Budget     int64            `json:"budget"`
+	TimeoutMs  int              `json:"timeout_ms"`
+	CrossCheck bool             `json:"cross_check"`
+	Trace      bool             `json:"trace"`
 }
 
 type Response struct {
@@ -65,9 +65,9 @@ var DefaultInterpPkgs = []string{
 }
 
 type Program struct {
-	Prog *ssa.Program
-	Pkgs map[string]*ssa.Package
-	InterpPkgs map[string]bool
+	Prog        *ssa.Program
+	Pkgs        map[string]*ssa.Package
+	InterpPkgs  map[string]bool
 	LoadSeconds float64
 }
 
